@@ -261,6 +261,8 @@ pub enum HistOp {
     PieWrap,
     PwWrap,
     PkeSeal,
+    /// a chain of token refreshes: each step unseals the previous token and seals the object again
+    Refresh,
 }
 
 #[derive(Clone, Debug, PartialEq, Serialize, Deserialize)]
